@@ -23,13 +23,17 @@ DRIVERS = ["drv_copy", S.DRIVER]
 LEAN_MODULES = ["MesaModel.Props.C19", "MesaModel.Props.C19Sets"]
 THEOREMS = ["Mesa.Copy." + t for t in (
     "C19_cells_see_own_layers", "C19_copy_sees_own_layers", "C19_copy_faithful", "C19_copy_detached",
-    "C19_spaces_never_share", "C19_original_untouched_by_copy", "C19_reject_unchanged")]
+    "C19_spaces_never_share", "C19_original_untouched_by_copy", "C19_reject_unchanged")] + [
+    "Mesa.CopySet." + t for t in (
+        "C19_agentset_reachable_wf", "C19_agentset_copy_faithful", "C19_agentset_copy_without_owners_loses_members",
+        "C19_agentset_frame", "C19_agentset_original_untouched_by_copy", "C19_agentset_copy_detached")]
 COUNTS = {"quick": 400, "thorough": 100000}
 HEADER_LINES = 1
 TRUSTED = [
     "Python's pickle / copy.deepcopy traversal and memo (each reachable object is reconstructed once) — exercised, not modelled",
     "the cell-space model of C06/C07 (lean/MesaModel/Model/CellSpace.lean, CellGeometry.lean) and its TRUSTED list",
-    "numpy array copying; weak references inside AgentSet",
+    "numpy array copying",
+    "AgentSet half (Model/CopySet.lean): CPython reference counting + gc as 'alive iff reachable' (the harness collects before every line and holds agents weakly); one public attribute per agent; sets are never dropped by the program",
     "the identity-level model (Model/Copy.lean) covers grids' dynamic cell class + property descriptors; Network / Voronoi cells have no descriptors",
 ]
 ASSUMPTIONS = ["the space is copied together with the agents in it and their model (what deepcopy / pickle of a space does)",
@@ -38,7 +42,9 @@ RULE = ("a random C06 history (grids of 1-3 axes incl. hex, networks, Voronoi; c
         "copy deepcopy|pickle, then 4-14 further operations / queries addressed at random to the original or the copy "
         "(placing, moving, removing, new agents, layer writes through cells, fills, layer add/del, neighbourhood and connection "
         "queries, a second-generation copy in thorough); non-trivial = the copy holds at least one agent and at least one "
-        "state-changing operation was applied to each side afterwards; distinct by sha1 of op lines")
+        "state-changing operation was applied to each side afterwards; distinct by sha1 of op lines.  30 % of the scenarios are "
+        "AgentSet histories (harness/c19_sets.py): 1-2 models, agents, 1-2 sets, set / agent operations, one or two copies (of the "
+        "original or of a copy), then operations on either family, every set read back after every operation")
 
 LAYER_NAMES = ["v", "w", "heat"]
 BAD_NAMES = ["empty", "capacity", "coordinate"]
